@@ -493,6 +493,9 @@ def oracle_c09(obs, rep, tier):
                 # input is another finding (a recorded finding must not mask it)
                 pl = spec.get("plant") or {}
                 cls = f":{pl['rule']}:{str(pl.get('key') or pl.get('pos') or '').split(':')[0].split('@')[0]}" if pl.get("rule") else ""
+                tb = spec.get("tables")
+                if not cls and tb and len(tb) == 1 and not spec.get("pack"):  # a route table served alone: its structure and fallback placement
+                    cls = f":{tb[0]['table']['struct']}:{tb[0]['table']['fb']}"
                 rep.violation(f"{fam}:panic:{where}{cls}", f"pavexc panicked on {spec['id']} at {where}", case)
                 continue
             if gen["exit"] not in (0, 1):
